@@ -2,7 +2,7 @@
    (trace inclusion, implementation ⊆ model, by subset simulation over silent-step closures), and does
    the observable checker accept it.  Evaluated by vm_compute in generated shard files. *)
 From Coq Require Import List Arith Bool ZArith.
-From Dastard Require Import Common.CaseLib C10.Conc C10.Model C10.Spec.
+From Dastard Require Import Common.CaseLib C10.Conc C10.Model C10.Spec C10.RpcModel C10.RpcSpec.
 Import ListNotations.
 Open Scope nat_scope.
 
@@ -105,11 +105,13 @@ Definition final_matches (n : nat) (o : obs) (s : state) : bool :=
   (* the model has no state in which a call stays blocked for ever: every launched call has returned *)
   && starter_done s && stoppers_done n s && negb (crashed s).
 
-Record case := mkCase { k_fault : fault; k_write : bool; k_obs : obs }.
+(* a case is either a life-cycle trace (Start / CoreLoop / Stop of a source object under the scheduler) or a
+   history of calls through the RPC entry points (SourceControl.Start / Stop) *)
+Record lcase := mkCase { k_fault : fault; k_write : bool; k_obs : obs }.
 
-Definition case_cfg (k : case) : cfg := mkCfg (o_kind (k_obs k)) (k_fault k) (k_write k) true false.
+Definition case_cfg (k : lcase) : cfg := mkCfg (o_kind (k_obs k)) (k_fault k) (k_write k) true false.
 
-Definition accepts (k : case) : bool * Z :=
+Definition accepts (k : lcase) : bool * Z :=
   let o := k_obs k in
   let c := case_cfg k in
   let '(ss, i) := follow c [init_state (o_n o) 0] (o_events o) 0%Z in
@@ -119,13 +121,44 @@ Definition accepts (k : case) : bool * Z :=
        then (true, (-1)%Z) else (false, Z.of_nat (length (o_events o)))
   else (false, i).
 
-Definition verdict (k : case) : Z * Z :=
+Definition lverdict (k : lcase) : Z * Z :=
   let '(a, i) := accepts k in
   (verdict_code a (C10_check (k_obs k)), i).
+
+(* RPC histories: the model is sequential and deterministic, so "accepts" is equality of the return classes
+   and of the final readings (whether a self-ending source is still alive at the end is not compared) *)
+Fixpoint rcs_first_diff (i : Z) (a b : list rc) : Z :=
+  match a, b with
+  | [], [] => (-1)%Z
+  | x :: a', y :: b' => if rc_eqb x y then rcs_first_diff (i + 1)%Z a' b' else i
+  | _, _ => i
+  end.
+
+Definition rpc_verdict (o : robs) : Z * Z :=
+  let (s, rs) := rpc_run rpc_init (ro_ops o) in
+  let d := rcs_first_diff 0%Z (ro_classes o) rs in
+  let fin_ok :=
+    Bool.eqb (ro_flag o) (r_flag s)
+    && match r_run s with
+       | RunNone | RunDead => negb (ro_active o)
+       | RunLive k => if self_ends k then true else ro_active o
+       end
+    && negb (ro_crashed o) in
+  (verdict_code ((d =? -1)%Z && fin_ok) (C10_rpc_check o),
+   if (d =? -1)%Z then (if fin_ok then (-1)%Z else Z.of_nat (length (ro_classes o))) else d).
+
+Inductive case := CLife (k : lcase) | CRpc (o : robs).
+
+Definition verdict (c : case) : Z * Z :=
+  match c with
+  | CLife k => lverdict k
+  | CRpc o => rpc_verdict o
+  end.
 
 (* compact constructors for generated files *)
 Definition pt (p : point) : event := EL (LPt p).
 Definition ret (c : call) (r : rc) : event := EL (LRet c r).
 Definition mk (kd : kind) (fl : fault) (wr : bool) (n : nat) (es : list event)
               (sr : bool) (nr : nat) (cr : bool) (f : final) : case :=
-  mkCase fl wr (mkObs kd n es sr nr cr f).
+  CLife (mkCase fl wr (mkObs kd n es sr nr cr f)).
+Definition mkrpc (h : list rop) (rs : list rc) (cr fl ac : bool) : case := CRpc (mkRobs h rs cr fl ac).
